@@ -257,6 +257,13 @@ def run_case(case, seed):
             ev, out, ranks = tgedmd.amuset_hosvd(x, basis, sigma, b=b, reweight=w, num_eigvals=nev, threshold=thr, max_rank=mr,
                                                  return_option=case['ro'], rel_threshold=case['rel'])
         ev = np.asarray(ev) / gscale
+        # output_freq only sets how often progress is reported: any value (dividing the number of snapshots or not, larger than
+        # it) must leave the result as it is
+        for of_ in (3, m + 5):
+            with quiet():
+                ev_o, _, _ = tgedmd.amuset_hosvd(x, basis, sigma, b=b, reweight=w, num_eigvals=nev, threshold=thr, max_rank=mr,
+                                                 return_option=case['ro'], rel_threshold=case['rel'], output_freq=of_)
+            r.close(key + ':output_freq-changes-result', np.asarray(ev_o) / gscale, ev, 1e-10, 'output_freq=%d, %d snapshots' % (of_, m))
         kk = k if nev == np.inf else min(k, 2)
         if r.true(key + ':eigenvalue-count', ev.shape == (kk,), 'got %s expected %d (rank %d)' % (ev.shape, kk, k)):
             # multiset comparison (greedy matching against the leading part of the sorted dense spectrum)
